@@ -99,6 +99,34 @@ func filterGen(form string, n, gap int, probe func()) seq.Iterator[int] {
 					}),
 				)
 			}))
+		case "body-advances-other-generator", "body-delegates-to-empty-generators":
+			// the loop BODY advances other generators (by hand / by delegation) and mostly finishes without yielding itself
+			if form == "body-advances-other-generator" {
+				src := filterGen("while", n, 1, func() {})
+				return seq.For(func() bool { return i < n }, func() { i++ }, seq.Delay(func() S {
+					probe()
+					if !src.MoveNext() {
+						return seq.Break[int]()
+					}
+					if v := src.Current(); v%gap == 0 {
+						return seq.Bind(v, func() S { return normal() })
+					}
+					return normal()
+				}))
+			}
+			return seq.For(func() bool { return i < n }, func() { i++ }, seq.Delay(func() S {
+				probe()
+				j := i
+				inner := seq.Start(seq.Delay(func() S { // yields j only when it is a multiple of gap
+					if j%gap == 0 {
+						return seq.Bind(j, func() S { return normal() })
+					}
+					return normal()
+				}))
+				return seq.While(inner.MoveNext, seq.Delay(func() S {
+					return seq.Bind(inner.Current(), func() S { return normal() })
+				}))
+			}))
 		case "rerun-inner", "rerun-inner-combine", "rerun-three-levels":
 			// The inner loop is ONE Seq value, built once and run once per outer iteration (what the optimiser makes of
 			// `for rows() { for cols() { if keep() { Yield } } }`): rows of 3 columns, most rows yield nothing, so the
@@ -151,7 +179,7 @@ func delegate(inner seq.Iterator[int], d int) seq.Iterator[int] {
 	return inner
 }
 
-var c17Forms = []string{"for-post", "while", "loop-break", "for-continue", "combine-body", "nested", "rerun-inner", "rerun-inner-combine", "rerun-three-levels"}
+var c17Forms = []string{"for-post", "while", "loop-break", "for-continue", "combine-body", "nested", "rerun-inner", "rerun-inner-combine", "rerun-three-levels", "body-advances-other-generator", "body-delegates-to-empty-generators"}
 
 // measure returns, over all advances, the largest (deepest probe - first probe of that advance).
 func measureC17(cs c17Case, yields int) (growth int, base int, delivered []int) {
